@@ -46,8 +46,9 @@ FoldSeq(Op(_, _), acc, q) == IF q = <<>> THEN acc ELSE FoldSeq(Op, Op(acc, Head(
 
 ---------------------------------------------------------------------------
 (* element data.  Five keys are modelled: .NAME, EDIF.identifier, .NS, a    *)
-(* flat user key k and a NESTED user value props (a list holding a dict,    *)
-(* abstracted to the token stored inside it).  "" means "key absent".       *)
+(* flat user key k and a NESTED user value props (EDIF.properties: a list   *)
+(* of two dicts, abstracted to the token stored in the first, with "#n"     *)
+(* appended when the list no longer has its two entries).  "" = key absent. *)
 NoVal == ""
 MkData(nm, ns) == [name |-> nm, eid |-> NoVal, ns |-> ns, k |-> NoVal, props |-> NoVal]
 Policies == {"DEFAULT", "EDIF"}
@@ -431,9 +432,13 @@ Apply(s, c) ==
              THEN DelName(s, c.kind, c.x) ELSE SetItem(s, c.kind, c.x, "name", "<None>")
       [] c.op = "set_attr"  -> SetAttr(s, c.kind, c.x, c.key, c.val)
       [] c.op = "set_lower" -> SetAttr(s, c.kind, c.x, "lower", c.ival)
+      [] c.op = "set_dir"   -> SetAttr(s, "P", c.x, "dir", c.ival)
       [] c.op = "mutate_props" ->      \* in-place edit of the nested user value: e["props"][0]["value"] = val
              IF ~(c.kind \in FirstClass) \/ ~Exists(s, c.kind, c.x) \/ DataOf(s, c.kind, c.x).props = NoVal
              THEN Refuse(s) ELSE Ok(SetDataField(s, c.kind, c.x, "props", c.val))
+      [] c.op = "drop_prop" ->         \* in-place removal of the last entry of the nested user value
+             IF ~(c.kind \in FirstClass) \/ ~Exists(s, c.kind, c.x) \/ DataOf(s, c.kind, c.x).props \notin {"v0", "v1"}
+             THEN Refuse(s) ELSE Ok(SetDataField(s, c.kind, c.x, "props", DataOf(s, c.kind, c.x).props \o "#1"))
       [] c.op = "set_default" -> Ok([s EXCEPT !.nsDefault = c.val])
       [] c.op = "reset"     -> Ok(s)
 
